@@ -226,6 +226,8 @@ type UniverseOpts struct {
 	NamedImpl int // bit0 A, bit1 B, bit2 C
 	ABMembers int
 	GoDir     int // 0 none; 1 @go(type:"A") short; 2 pkg.Name; 3 full path
+	// ReverseMembers lists the union's members (and nothing else) in reverse alphabetical order
+	ReverseMembers bool
 }
 
 func mask(m, def int) int {
@@ -279,6 +281,11 @@ func Universe(o UniverseOpts) *Schema {
 	for i, n := range []string{"A", "B", "C"} {
 		if memb&(1<<i) != 0 {
 			members = append(members, n)
+		}
+	}
+	if o.ReverseMembers {
+		for i, j := 0, len(members)-1; i < j; i, j = i+1, j-1 {
+			members[i], members[j] = members[j], members[i]
 		}
 	}
 	obj := func(name string) *TypeDef {
